@@ -98,6 +98,57 @@ type Inner struct {
 }
 `
 
+// DeepSrc is a package the setup file never imports itself: its types reach the setup
+// package only through fields declared in a sibling file.
+const DeepSrc = `package deep
+
+type Item struct {
+	ID     int
+	Note   string
+	secret int
+}
+
+func NewItem(id int, note string, secret int) Item { return Item{ID: id, Note: note, secret: secret} }
+func (i Item) Label() string                      { return "lb:" + i.Note }
+func (i Item) hid() int                           { return i.secret }
+`
+
+// V1Src lives at an import path whose last element looks like a major version and is the package name.
+const V1Src = `package v1
+
+type Kind string
+
+type Pod struct {
+	Name string
+	Kind Kind
+}
+`
+
+// DotSrc is dot-imported by some setup files.
+const DotSrc = `package dot
+
+import "strconv"
+
+type Kind int
+
+func DotConv(i int) string { return "dot" + strconv.Itoa(i) }
+func DotConvErr(i int) (string, error) {
+	if i < 0 {
+		return "", strconv.ErrRange
+	}
+	return "dot" + strconv.Itoa(i), nil
+}
+`
+
+// FixedPackages are part of every generated module.
+func FixedPackages(files tool.Files) {
+	files["ext/ext.go"] = ExtSrc
+	files["ext2/ext2.go"] = Ext2Src
+	files["deep/deep.go"] = DeepSrc
+	files["api/v1/v1.go"] = V1Src
+	files["dot/dot.go"] = DotSrc
+}
+
 // FieldPair is one destination field with what the source offers for it.
 type FieldPair struct {
 	Class   string // relation class (for the distribution)
@@ -153,6 +204,21 @@ var pairCatalogue = []FieldPair{
 	{"stringer", "string", "*ext.Code", "field"}, // pointer to it
 	{"stringer", "string", "*ext.Level", "field"},
 	{"stringer", "interface{}", "ext.Level", "field"},
+	{"stringer", "string", "Coded", "field"}, // String() yields a defined string type: not a Stringer
+	{"identical", "deep.Item", "deep.Item", "field"}, // types of a package the setup file does not import
+	{"nested", "LocalItem", "deep.Item", "field"},
+	{"ptrstruct", "*LocalItem", "*deep.Item", "field"},
+	{"slice", "[]deep.Item", "[]deep.Item", "field"},
+	{"identical", "v1.Kind", "v1.Kind", "field"}, // import path .../api/v1, package v1
+	{"identical", "v1.Pod", "v1.Pod", "field"},
+	{"convertible", "v1.Kind", "string", "field"},
+	{"convertible", "string", "v1.Kind", "field"},
+	{"slice", "[]v1.Kind", "[]v1.Kind", "field"},
+	{"nested", "LocalPod", "v1.Pod", "field"},
+	{"identical", "dot.Kind", "dot.Kind", "field"}, // dot-imported (or plainly imported) by the setup file
+	{"convertible", "dot.Kind", "int", "field"},
+	{"slice", "[]dot.Kind", "[]dot.Kind", "field"},
+	{"convpair", "*Leaf2", "Leaf", "field"}, // only a converter generated from another interface fits
 	{"nested", "Inner2", "Inner1", "field"},
 	{"nested", "Deep2", "Deep1", "field"},
 	{"nested", "ext.Pub2", "ext.Pub1", "field"},
@@ -208,6 +274,9 @@ import (
 	"errors"
 	"strconv"
 
+	v1 "cvcase/api/v1"
+	"cvcase/deep"
+	"cvcase/dot"
 	"cvcase/ext"
 	"cvcase/ext2"
 )
@@ -216,6 +285,9 @@ var _ = errors.New
 var _ = strconv.Itoa
 var _ ext.Status
 var _ ext2.Status
+var _ deep.Item
+var _ v1.Kind
+var _ dot.Kind
 
 type MyInt int
 type Status int
@@ -263,6 +335,37 @@ type Deep2 struct {
 }
 type Empty1 struct{}
 type Empty2 struct{}
+type LocalItem struct {
+	ID     int
+	Note   string
+	secret int
+}
+type LocalPod struct {
+	Name string
+	Kind string
+}
+type Label string
+type Coded int
+
+func (c Coded) String() Label { return Label("coded:" + strconv.Itoa(int(c))) }
+
+type Doc struct {
+	Title  string
+	Tags   []string
+	Nums   []int
+	Leaves []Leaf
+	In     Inner1
+	P      *Leaf
+}
+type Lookup struct{ N int }
+
+func (l *Lookup) Code() (int, error) {
+	if e := semEnter("Lookup.Code"); e != nil {
+		return 0, e
+	}
+	return l.N * 7, nil
+}
+func (l *Lookup) Plain() int { return l.N }
 type LocalAnon struct {
 	Pos struct {
 		X int
@@ -325,6 +428,7 @@ type Case struct {
 	Interfaces []Interface
 	Features   map[string]int
 	Struct     map[string][]FieldDecl // local struct types generated for this case
+	DotImport  bool                   // the setup file dot-imports cvcase/dot
 }
 
 type FieldDecl struct {
@@ -352,6 +456,8 @@ type Options struct {
 	ErrorBias       bool // prefer error results, error-returning converters and getters (C07)
 	Embedding       float64 // probability that a converter interface embeds another interface
 	HookReuse       float64 // probability that a method names a hook declared for an earlier method's (different) types
+	CrossConv       float64 // probability that a :conv names a method generated from another converter interface
+	Clones          float64 // probability of a method converting a struct type to itself
 }
 
 // DefaultOptions is the general-purpose mix.
@@ -370,6 +476,14 @@ type genState struct {
 }
 
 func (g *genState) feat(f string) { g.c.Features[f]++ }
+
+// dotName spells a function of cvcase/dot the way the setup file must refer to it.
+func (g *genState) dotName(fn string) string {
+	if g.c.DotImport {
+		return fn
+	}
+	return "dot." + fn
+}
 
 func (g *genState) pick(ss []string) string { return ss[g.rng.Intn(len(ss))] }
 
@@ -505,8 +619,33 @@ func (g *genState) genStructPair(imported bool) (src, dst string, fields []Field
 	return
 }
 
+// cloneFields: the fields of Doc (LocalTypes), for methods converting a struct type to itself.
+var cloneFields = []FieldDecl{
+	{Name: "Title", Type: "string", Pair: FieldPair{"identical", "string", "string", "field"}, SrcName: "Title"},
+	{Name: "Tags", Type: "[]string", Pair: FieldPair{"slice", "[]string", "[]string", "field"}, SrcName: "Tags"},
+	{Name: "Nums", Type: "[]int", Pair: FieldPair{"slice", "[]int", "[]int", "field"}, SrcName: "Nums"},
+	{Name: "Leaves", Type: "[]Leaf", Pair: FieldPair{"slice", "[]Leaf", "[]Leaf", "field"}, SrcName: "Leaves"},
+	{Name: "In", Type: "Inner1", Pair: FieldPair{"identical", "Inner1", "Inner1", "field"}, SrcName: "In"},
+	{Name: "P", Type: "*Leaf", Pair: FieldPair{"identical", "*Leaf", "*Leaf", "field"}, SrcName: "P"},
+}
+
 // genMethod draws one method over a fresh struct pair.
 func (g *genState) genMethod(idx int) Method {
+	if g.opt.Clones > 0 && g.rng.Float64() < g.opt.Clones {
+		// a clone / snapshot method: source and destination are one struct type
+		m := Method{Name: fmt.Sprintf("Clone%d", idx), SrcType: "Doc", DstType: "Doc"}
+		m.SrcPtr, m.DstPtr = g.rng.Intn(3) != 0, g.rng.Intn(3) != 0
+		switch g.rng.Intn(4) {
+		case 0:
+			m.Notations = append(m.Notations, ":style arg")
+		case 1:
+			m.Notations = append(m.Notations, ":recv d")
+		}
+		g.c.Struct["Doc"] = cloneFields
+		m.Features = append(m.Features, "clone-same-type")
+		g.feat("clone-same-type")
+		return m
+	}
 	src, dst, fields := g.genStructPair(false)
 	m := Method{Name: fmt.Sprintf("Conv%d%s", idx, g.pick([]string{"", "ToDst", "X"})), SrcType: src, DstType: dst}
 	m.SrcPtr = g.rng.Intn(3) != 0
@@ -517,7 +656,7 @@ func (g *genState) genMethod(idx int) Method {
 	m.RetErr = g.rng.Intn(3) == 0 || g.opt.ErrorBias
 	if g.opt.Styles && g.rng.Intn(3) == 0 {
 		n := 1 + g.rng.Intn(3)
-		argTypes := []string{"int", "string", "*Leaf", "ext.Status", "[]string", "ext.Person", "Inner1"}
+		argTypes := []string{"int", "string", "*Leaf", "ext.Status", "[]string", "ext.Person", "Inner1", "*Lookup", "v1.Kind", "v1.Pod"}
 		for i := 0; i < n; i++ {
 			a := Arg{Type: g.pick(argTypes)}
 			if m.SrcName != "" {
@@ -571,6 +710,11 @@ func (g *genState) genMethod(idx int) Method {
 				m.Notations = append(m.Notations, ":conv localConvErr SpareInt "+f.Name+".B", ":conv localConvErr2 SpareInt "+f.Name+".C")
 				m.Features = append(m.Features, "nested-error-converters")
 			}
+			if f.Pair.Dst == "Deep2" && f.Pair.Src == "Deep1" && g.rng.Intn(2) == 0 {
+				// call sites two member-wise copied structs deep, and one at depth one after them
+				m.Notations = append(m.Notations, ":conv localConvErr SpareInt "+f.Name+".In.B", ":conv localConvErr2 SpareInt "+f.Name+".In.C", ":conv localConvErr SpareInt "+f.Name+".Tag")
+				m.Features = append(m.Features, "depth2-error-converters")
+			}
 		}
 	}
 	// explicit notations over the destination fields
@@ -579,7 +723,19 @@ func (g *genState) genMethod(idx int) Method {
 			continue
 		}
 		path := f.Name
-		switch g.rng.Intn(9) {
+		switch g.rng.Intn(10) {
+		case 9:
+			// converter shapes at the edge of what can be written as Go: a pointer parameter fed from a call or a
+			// conversion, a source or a converter that also yields an error below a conversion / String() call
+			shapes := [][2]string{{"localPtrConv", "Calc()"}, {"localPtrConv", "PtrCalc()"}, {"localPtrConv64", "SpareInt"}, {"localPtrConv", "SpareInt"},
+				{"localPtrConv", "NestV.A"}, {"localPtrConv", "Nest.A"}, {"localConvErr3", "SpareInt"}, {"localConvErr", "SpareInt"}, {"localConv", "Risky()"},
+				{"ext.Atoi", "Risky()"}, {"ext.PtrLen", "SpareStr"}, {"ext.PtrLen", "Who.Name()"}, {"ext.PtrLen", "NestV.C"}}
+			if g.opt.ErrorBias {
+				shapes = shapes[6:8]
+			}
+			sh := shapes[g.rng.Intn(len(shapes))]
+			m.Notations = append(m.Notations, ":conv "+sh[0]+" "+sh[1]+" "+path)
+			m.Features = append(m.Features, "conv-edge-shape")
 		case 0:
 			m.Notations = append(m.Notations, ":skip "+path)
 			m.Features = append(m.Features, "skip")
@@ -588,7 +744,20 @@ func (g *genState) genMethod(idx int) Method {
 			m.Notations = append(m.Notations, ":skip "+g.pick(pats))
 			m.Features = append(m.Features, "skip-re")
 		case 2:
-			srcs := []string{"SpareInt", "SpareStr", "Calc()", "Risky()", "Nest.A", "NestV.B", "Who.Name()", "Who.Nick", "WhoP.Age()", "NestV.L.W", "Nope", "Who.secret()", "PtrCalc()", "WithArg()", "NestV.C.String()", "Who.Score()"}
+			srcs := []string{"SpareInt", "SpareStr", "Calc()", "Risky()", "Nest.A", "NestV.B", "Who.Name()", "Who.Nick", "WhoP.Age()", "NestV.L.W", "Nope", "Who.secret()", "PtrCalc()", "WithArg()", "NestV.C.String()", "Who.Score()",
+				"Who.name", "Who.age", "WhoP.lvl", "Who.lvl.String()"} // the last four: unexported members of an imported type
+			if g.rng.Intn(5) == 0 {
+				// an identity :map pins the source to exactly this member, whatever the matching rule
+				id := f.SrcName
+				if id == "" {
+					id = path
+				}
+				if f.SrcGetter {
+					id += "()"
+				}
+				srcs = []string{id}
+				m.Features = append(m.Features, "identity-map")
+			}
 			if g.opt.ErrorBias {
 				srcs = []string{"Risky()", "Risky()", "SpareStr", "Calc()"}
 			}
@@ -602,7 +771,11 @@ func (g *genState) genMethod(idx int) Method {
 			if g.opt.ErrorBias {
 				convs = []string{"localConvErr", "localConvErr2", "localConvErr3", "localConv"}
 			}
-			srcs := []string{"SpareInt", "SpareStr", "Calc()", path, "NestV.A", "Nest.B"}
+			if !g.opt.ErrorBias {
+				// converters whose result needs a conversion, whose pointer parameter needs an address, dot-imported ones
+				convs = append(convs, "localConvErr3", "localPtrConv64", g.dotName("DotConv"), g.dotName("DotConvErr"))
+			}
+			srcs := []string{"SpareInt", "SpareStr", "Calc()", path, "NestV.A", "Nest.B", "Risky()", "Who.age", "PtrCalc()"}
 			if g.opt.ErrorBias {
 				srcs = []string{"SpareInt", "Nest.A", "NestV.A", "Calc()"}
 			}
@@ -616,7 +789,7 @@ func (g *genState) genMethod(idx int) Method {
 				k := 1 + g.rng.Intn(len(m.Args)+2)
 				suffix := ""
 				if g.rng.Intn(4) == 0 {
-					suffix = g.pick([]string{".V", ".Name()", ".A"})
+					suffix = g.pick([]string{".V", ".Name()", ".A", ".Code()", ".Plain()", ".age", ".Name", ".N"})
 				}
 				m.Notations = append(m.Notations, fmt.Sprintf(":map $%d%s %s", k, suffix, path))
 				m.Features = append(m.Features, "argmap")
@@ -634,6 +807,20 @@ func (g *genState) genMethod(idx int) Method {
 			}
 			m.Features = append(m.Features, "nested-notation")
 		case 7:
+			if g.rng.Intn(2) == 0 {
+				// destinations of :map/:conv/:literal compare case-sensitively whatever the case rule
+				v := caseVariant(g.rng, path)
+				switch g.rng.Intn(3) {
+				case 0:
+					m.Notations = append(m.Notations, ":map SpareInt "+v)
+				case 1:
+					m.Notations = append(m.Notations, ":conv localConv SpareInt "+v)
+				default:
+					m.Notations = append(m.Notations, ":literal "+v+" "+literalFor(g.rng, f.Type))
+				}
+				m.Features = append(m.Features, "explicit-target-case-variant")
+				break
+			}
 			m.Notations = append(m.Notations, ":skip "+strings.ToLower(path))
 			m.Features = append(m.Features, "skip-case")
 		case 8:
@@ -651,7 +838,7 @@ func (g *genState) genMethod(idx int) Method {
 			}
 		}
 		for _, n := range m.Notations {
-			if strings.Contains(n, "Risky()") || strings.Contains(n, "Score()") || strings.Contains(n, "Atoi") || strings.Contains(n, "localConvErr") {
+			if strings.Contains(n, "Risky()") || strings.Contains(n, "Score()") || strings.Contains(n, "Atoi") || strings.Contains(n, "localConvErr") || strings.Contains(n, "DotConvErr") || strings.Contains(n, "Code()") {
 				risky = true
 			}
 		}
@@ -718,6 +905,9 @@ func (g *genState) hook(m *Method, kind string) string {
 	shape := g.rng.Intn(10)
 	if g.opt.WellFormed {
 		shape = 9
+		if g.opt.HookReuse > 0 && g.rng.Intn(10) == 0 {
+			shape = 4 // streams that expect rejections of misfit hooks also get the concrete-error result shape
+		}
 	}
 	withArgs := len(m.Args) > 0 && g.rng.Intn(2) == 0
 	if withArgs {
@@ -748,9 +938,18 @@ func (g *genState) hook(m *Method, kind string) string {
 	case 3:
 		res, body = " int", "return 0"
 		g.feat("hook-bad-result")
+	case 4:
+		if g.rng.Intn(2) == 0 || g.opt.WellFormed {
+			// a concrete type implementing error is not the error result the tool documents: a nil *MyErr
+			// stored in the function's err would be a non-nil error
+			res, body = " *MyErr", "return nil"
+			g.feat("hook-concrete-error-result")
+			m.Features = append(m.Features, "misfit-hook-result")
+			g.c.Features["misfit-hook-reused"]++ // counted with the hooks that must be rejected
+		}
 	}
 	g.feat("hook-" + kind)
-	if shape >= 4 && res != " int" {
+	if shape >= 4 && res != " int" && res != " *MyErr" {
 		g.hookNames = append(g.hookNames, name)
 	}
 	// instrumented body: report the operands to the driver, then fail on command
@@ -812,6 +1011,7 @@ func Generate(seed int64, index int, opt Options) *Case {
 	rng := rand.New(rand.NewSource(seed*1000003 + int64(index)))
 	c := &Case{Seed: seed, Index: index, Files: tool.Files{}, Features: map[string]int{}, Struct: map[string][]FieldDecl{}}
 	g := &genState{rng: rng, opt: opt, c: c}
+	c.DotImport = rng.Intn(3) == 0
 	nIntf := 1 + rng.Intn(opt.MaxInterfaces)
 	intfNames := []string{"Convergen", "Backend", "Loader", "Alpha", "Zeta"}
 	mi := 0
@@ -853,17 +1053,50 @@ func Generate(seed int64, index int, opt Options) *Case {
 			it.Methods = append(it.Methods, g.genMethod(mi))
 		}
 		if rng.Float64() < opt.Embedding {
-			it.Embeds = []Method{{Name: fmt.Sprintf("Emb%dConv", i), SrcType: "Leaf", DstType: "Leaf2", SrcPtr: true, DstPtr: true}}
+			em := Method{Name: fmt.Sprintf("Emb%dConv", i), SrcType: "Leaf", DstType: "Leaf2", SrcPtr: true, DstPtr: true}
+			switch rng.Intn(4) {
+			case 0:
+				em.Notations = []string{":skip W"}
+				em.DocLines = []string{em.Name + " is promoted from an embedded interface."}
+			case 1:
+				em.Notations = []string{":literal W \"emb\"", ":typecast:off"}
+			case 2:
+				em.DocLines = []string{"only a doc line on a promoted method."}
+			}
+			if len(em.Notations) > 0 {
+				g.feat("embedded-method-with-notations")
+			}
+			it.Embeds = []Method{em}
 			g.feat("embedded-interface")
 		}
 		c.Interfaces = append(c.Interfaces, it)
+	}
+	if opt.CrossConv > 0 {
+		used := false
+		for ii := range c.Interfaces {
+			for mi := range c.Interfaces[ii].Methods {
+				m := &c.Interfaces[ii].Methods[mi]
+				for _, f := range c.Struct[m.DstType] {
+					if f.Pair.Class == "convpair" && f.SrcName != "" && rng.Float64() < opt.CrossConv {
+						m.Notations = append(m.Notations, ":conv LeafToLeaf2 "+f.SrcName+" "+f.Name)
+						used = true
+					}
+				}
+			}
+		}
+		if used {
+			// the converter is itself generated, from an interface processed before or after its users
+			h := Interface{Name: []string{"AHelpers", "ZHelpers"}[rng.Intn(2)], Marked: true,
+				Methods: []Method{{Name: "LeafToLeaf2", SrcType: "Leaf", DstType: "Leaf2", SrcPtr: true, DstPtr: true}}}
+			c.Interfaces = append(c.Interfaces, h)
+			g.feat("conv-names-method-of-another-interface:" + h.Name)
+		}
 	}
 	if opt.Malformed > 0 {
 		g.malform()
 	}
 	c.SetupPath = "pk/setup.go"
-	c.Files["ext/ext.go"] = ExtSrc
-	c.Files["ext2/ext2.go"] = Ext2Src
+	FixedPackages(c.Files)
 	helpers := `
 func localConv(i int) string { return strconv.Itoa(i) }
 func localConvErr(i int) (string, error) {
@@ -879,6 +1112,7 @@ func localConvErr2(i int) (string, error) {
 	}
 	return strconv.Itoa(i + 2), nil
 }
+func localPtrConv64(i *int64) string { return strconv.FormatInt(*i, 10) }
 func localConvErr3(i int) (int, error) {
 	if e := semEnter("localConvErr3"); e != nil {
 		return 0, e
@@ -908,7 +1142,14 @@ func renderSetup(rng *rand.Rand, c *Case, opt Options) string {
 		c.Features["package-doc"]++
 	}
 	sb.WriteString("package pk\n\n")
-	sb.WriteString("import (\n\t\"strconv\"\n\n\t\"cvcase/ext\"\n")
+	sb.WriteString("import (\n\t\"strconv\"\n\n\t\"cvcase/api/v1\"\n")
+	if c.DotImport {
+		sb.WriteString("\t. \"cvcase/dot\"\n")
+		c.Features["dot-import"]++
+	} else {
+		sb.WriteString("\t\"cvcase/dot\"\n")
+	}
+	sb.WriteString("\t\"cvcase/ext\"\n")
 	switch rng.Intn(4) {
 	case 0:
 		sb.WriteString("\t_ \"cvcase/ext2\"\n")
@@ -917,7 +1158,12 @@ func renderSetup(rng *rand.Rand, c *Case, opt Options) string {
 		sb.WriteString("\t\"cvcase/ext2\"\n")
 	}
 	sb.WriteString(")\n\n")
-	sb.WriteString("var _ = strconv.Itoa\nvar _ ext.Status\n")
+	sb.WriteString("var _ = strconv.Itoa\nvar _ ext.Status\nvar _ v1.Kind\n")
+	if c.DotImport {
+		sb.WriteString("var _ = DotConv\n")
+	} else {
+		sb.WriteString("var _ = dot.DotConv\n")
+	}
 	if opt.ExtraDecls && rng.Intn(2) == 0 {
 		sb.WriteString("\n// Version is carried over.\nconst Version = \"1.0\" // trailing comment\n")
 		c.Features["decl-before"]++
@@ -963,6 +1209,12 @@ func renderSetup(rng *rand.Rand, c *Case, opt Options) string {
 		if len(it.Embeds) > 0 {
 			fmt.Fprintf(&sb, "\ntype emb%s interface {\n", it.Name)
 			for _, m := range it.Embeds {
+				for _, l := range m.DocLines {
+					sb.WriteString("\t// " + l + "\n")
+				}
+				for _, n := range m.Notations {
+					sb.WriteString("\t// " + n + "\n")
+				}
 				sb.WriteString("\t" + m.signature() + "\n")
 			}
 			sb.WriteString("}\n")
@@ -1023,6 +1275,18 @@ func (g *genState) malform() {
 				n := 1 + rng.Intn(2)
 				for k := 0; k < n; k++ {
 					line := g.pick(malformedNotations)
+					// half of the lines addressing a placeholder field address a real destination field instead,
+					// so that the builder consults them
+					if fs := g.c.Struct[m.DstType]; len(fs) > 0 && rng.Intn(2) == 0 {
+						real := fs[rng.Intn(len(fs))].Name
+						for _, ph := range []string{" A", " X"} {
+							if strings.HasSuffix(line, ph) {
+								line = strings.TrimSuffix(line, ph) + " " + real
+								g.feat("malformed-notation-on-real-field")
+								break
+							}
+						}
+					}
 					pos := rng.Intn(len(m.Notations) + 1)
 					m.Notations = append(m.Notations[:pos], append([]string{line}, m.Notations[pos:]...)...)
 				}
@@ -1126,7 +1390,7 @@ func GenerateSelection(seed int64, index int, opt Options) *Case {
 // interface declaring the named method, with that method alone (C09: each
 // method's result must be the same as if it were the only method present).
 func (c *Case) OnlyMethod(name string, opt Options) *Case {
-	nc := &Case{Seed: c.Seed, Index: c.Index, Files: tool.Files{}, Features: map[string]int{}, Struct: c.Struct, SetupPath: c.SetupPath}
+	nc := &Case{Seed: c.Seed, Index: c.Index, Files: tool.Files{}, Features: map[string]int{}, Struct: c.Struct, SetupPath: c.SetupPath, DotImport: c.DotImport}
 	for k, v := range c.Files {
 		nc.Files[k] = v
 	}
@@ -1135,6 +1399,16 @@ func (c *Case) OnlyMethod(name string, opt Options) *Case {
 			if m.Name == name {
 				one := it
 				one.Methods = []Method{m}
+				one.Embeds = nil
+				nc.Interfaces = []Interface{one}
+			}
+		}
+		for _, m := range it.Embeds {
+			if m.Name == name {
+				// the promoted method alone: the converter interface keeps only its embedded interface
+				one := it
+				one.Methods = nil
+				one.Embeds = []Method{m}
 				nc.Interfaces = []Interface{one}
 			}
 		}
@@ -1148,8 +1422,7 @@ func (c *Case) OnlyMethod(name string, opt Options) *Case {
 func SignatureCase(seed int64, index int, methods []Method, extraTypes string, intfNotations []string) *Case {
 	c := &Case{Seed: seed, Index: index, Files: tool.Files{}, Features: map[string]int{}, Struct: map[string][]FieldDecl{}, SetupPath: "pk/setup.go"}
 	c.Interfaces = []Interface{{Name: "Convergen", Methods: methods, Notations: intfNotations, NoDoc: len(intfNotations) == 0}}
-	c.Files["ext/ext.go"] = ExtSrc
-	c.Files["ext2/ext2.go"] = Ext2Src
+	FixedPackages(c.Files)
 	c.Files["pk/types.go"] = LocalTypes + extraTypes
 	rng := rand.New(rand.NewSource(seed*17 + int64(index)))
 	c.Files["pk/setup.go"] = strings.Replace(renderSetup(rng, c, Options{}), "\t_ \"cvcase/ext2\"", "\t\"cvcase/ext2\"", 1)
@@ -1162,8 +1435,7 @@ func SignatureCase(seed int64, index int, methods []Method, extraTypes string, i
 func GenerateLayout(seed int64, index int, compound bool) *Case {
 	rng := rand.New(rand.NewSource(seed*104729 + int64(index)))
 	c := &Case{Seed: seed, Index: index, Files: tool.Files{}, Features: map[string]int{}, Struct: map[string][]FieldDecl{}, SetupPath: "pk/setup.go"}
-	c.Files["ext/ext.go"] = ExtSrc
-	c.Files["ext2/ext2.go"] = Ext2Src
+	FixedPackages(c.Files)
 	c.Files["pk/semrt.go"] = SemRuntime
 	c.Files["pk/types.go"] = LocalTypes + "\ntype LS struct {\n\tA int\n\tB string\n}\ntype LD struct {\n\tA int\n\tB string\n}\nfunc conv(i int) int { return i }\n"
 	var sb strings.Builder
